@@ -49,6 +49,7 @@ NEW, RUNNABLE, BLOCKED, SLEEPING, EXTERNAL, DONE = (
     "external",
     "done",
 )
+ARRIVING = "arriving"  # adopted foreign thread waiting for the arrival barrier: not schedulable yet
 
 _ACTIVE: Optional["Sim"] = None
 _TOKEN = re.compile(r"-[0-9a-f]{6,}$")
@@ -404,7 +405,7 @@ class Sim:
                         t.state = RUNNABLE
                 cands = self._candidates()
                 continue
-            if any(t.state == EXTERNAL for t in self.threads) or (
+            if any(t.state in (EXTERNAL, ARRIVING) for t in self.threads) or (
                 self.expected_foreign and me is not None and me.state == EXTERNAL
             ):
                 # somebody is inside foreign code and will come back: free baton
@@ -568,7 +569,9 @@ class Sim:
             th.ident = threading.get_ident()
             th.thread = threading.current_thread()
             self.by_ident[th.ident] = th
-            th.state = RUNNABLE
+            # not schedulable before every expected foreign thread has arrived: which of them arrives first (and whether
+            # the caller has already released the baton by then) is decided by the operating system, not by us
+            th.state = ARRIVING if self.expected_foreign > 1 else RUNNABLE
             self._arrivals.append(th)
             self.count("adopted")
             all_in = len(self._arrivals) >= max(1, self.expected_foreign)
@@ -579,6 +582,9 @@ class Sim:
                 prios = sorted(t.prio for t in self._arrivals)
                 for t, o, p in zip(arr, ords, prios):
                     t.ordinal, t.prio = o, p
+                for t in self._arrivals:
+                    if t.state == ARRIVING:
+                        t.state = RUNNABLE
             if all_in and self.holder is None:
                 self._arrivals = []
                 cands = self._candidates()
